@@ -14,6 +14,8 @@ OPS = ["parse", "print", "create", "bulk", "add_to_object", "add_to_object_cs", 
 
 KEYS = [b"a", b"key", b"K", b"", b"a longer key with spaces", b"k/~"]
 STRS = [b"", b"x", b"a string value that is longer than the others", b"\"esc\"\n", b"\xc3\xa9"]
+# old and new values for cJSON_SetValuestring: also pairs whose lengths differ by more than 1 KiB in either direction
+SET_STRS = STRS + [b"L" * 300, b"M" * 1028, b"N" * 1029, b"O" * 2000, b"P" * 70000, b"q" * 5, b"r" * 1030]
 
 
 class Pre:
@@ -111,10 +113,10 @@ class C08(Prop):
         elif op in ("add_to_object", "add_to_object_cs", "add_helper"):
             pre.args["obj"] = tree(as_object(jv))
             if op != "add_helper":
-                pre.args["item"] = tree(jv2)
+                pre.args["item"] = self.item_variant(lib, pre, tree, jv2, c)
         elif op == "add_to_array":
             pre.args["arr"] = tree(as_array(jv))
-            pre.args["item"] = tree(jv2)
+            pre.args["item"] = self.item_variant(lib, pre, tree, jv2, c)
         elif op in ("add_ref_array", "add_ref_object"):
             pre.args["cont"] = tree(as_array(jv) if op == "add_ref_array" else as_object(jv))
             pre.args["target"] = tree(jv2)
@@ -157,13 +159,27 @@ class C08(Prop):
                 k = k.swapcase()
             pre.args["key"] = model.c_bytes(k)
         elif op == "set_string":
-            t = ["A", [["S", STRS[a % len(STRS)]], jv]]
+            t = ["A", [["S", SET_STRS[a % len(SET_STRS)]], jv]]
             pre.args["tree"] = tree(t)
             pre.args["node"] = lib.cJSON_GetArrayItem(pre.args["tree"], 0)
         pre.texts = [lib.take_text(lib.cJSON_PrintUnformatted(r)) for r in pre.roots]
         pre.flags = [lib.shim_type(r) for r in pre.roots]
         pre.walk = [lib.walk(r, 1, 1)[0] for r in pre.roots]
         return pre
+
+    def item_variant(self, lib, pre, tree, jv2, c):
+        """the item handed to an add call: an ordinary tree, or a reference item the caller made itself
+        (cJSON_Create{String,Object,Array}Reference) - on failure it still belongs to the caller"""
+        k = c % 8
+        if k < 5:
+            return tree(jv2)
+        if k == 5:
+            ref = lib.cJSON_CreateStringReference(self.arena_key(lib, b"borrowed text"))
+        else:
+            target = tree(["O", [[b"m", jv2], [b"n", ["N", 1.0]]]] if k == 6 else ["A", [jv2, ["t"]]])
+            ref = (lib.cJSON_CreateObjectReference if k == 6 else lib.cJSON_CreateArrayReference)(lib.shim_child(target))
+        pre.roots.insert(0, ref)     # references are deleted before their targets
+        return ref
 
     def call(self, lib, case, pre):
         """the call under test; returns (normalised result, failed?) and registers results owned by the harness in pre.roots"""
@@ -280,7 +296,7 @@ class C08(Prop):
                 pre.roots.remove(A["item"])
             return bool(r), not r
         if op == "set_string":
-            s = STRS[b % len(STRS)]
+            s = SET_STRS[b % len(SET_STRS)]
             r = lib.cJSON_SetValuestring(A["node"], s)
             return bool(r), not r
         raise ValueError(op)
